@@ -169,6 +169,7 @@ func checkC03(c *Ctx) {
 		"B-IDX|sm2.sm2GenrateWNaf|slice ?*ssa.MakeSlice[0:?phi1+1] #1":   wnaf,
 		"B-IDX|sm2.sm2P256SelectAffinePoint|index ?phi1[0] #1":           scan,
 		"B-IDX|sm2.sm2P256SelectAffinePoint|index ?phi1[0] #2":           scan,
+		"B-IDX|sm2.sm2P256SelectAffinePoint|@base:table":                 scan,
 	}
 	st := bidx(c, "B-IDX", fs, exempt)
 	c.Notes = append(c.Notes, fmt.Sprintf("B-IDX: %d sites, %d by the compiler prove pass, %d by LinBounds, %d not proven", st.sites, st.compiler, st.lin, st.unproved))
